@@ -6,7 +6,7 @@ Property theorems only (helpers: `BoxoModel/C39/{Lemmas,Walk,RoundTrip}.lean`).
 The statements quantify over every tree (`Kids`: any depth, any number of entries, duplicate names
 allowed) whose entry names are ordinary path elements made of bytes (`NamesOK`: non-empty, not `.`,
 not `..`, no `/` — the writer joins names with `path.Join`, so other names cannot survive, see
-`c39_guard_necessary`), with arbitrary file contents and link targets, and — in form mode — every mode
+`c39_guard_necessary`), with arbitrary file contents and link targets, and every `AbsPath()` byte string of a file (it is part of the tree and round-trips in both modes), and — in form mode — every mode
 below 2^32 and every time that is unset or a non-zero instant with int64 seconds (`MetaOK`).
 `parse true` is the reader with the `fix:` commit, `parse false` the reader before it.
 -/
@@ -48,15 +48,30 @@ theorem c39_escape_roundtrip (s : Str) (hs : IsBytes s) : unescape (escape s) = 
 /-- The header parameters written for a mode and a time are read back as that mode and time
 (fixed reader); in particular no parameters at all (`mode = 0`, no time) read back as unset. -/
 theorem c39_meta_roundtrip (mode : Nat) (mt : Option (Int × Nat)) (hv : ValidMeta mode mt)
-    (stack : List Str) (name : Str) (ct : CType) (body : Str) :
-    fileInfo true (mkPart true stack name mode mt ct body) = some ⟨mode, mt⟩ :=
-  fileInfo_written mode mt hv stack name ct body
+    (stack : List Str) (name : Str) (ct : CType) (body abspath : Str) :
+    fileInfo true (mkPart true stack name mode mt ct body abspath) = some ⟨mode, mt⟩ :=
+  fileInfo_written mode mt hv stack name ct body abspath
+
+/-- The `AbsPath()` of a file travels in the `abspath-encoded` header and is read back unchanged (both modes). -/
+theorem c39_abspath_roundtrip (form : Bool) (stack : List Str) (name : Str) (mode : Nat) (mt : Option (Int × Nat))
+    (body abspath : Str) (ha : IsBytes abspath) :
+    absPathOf (mkPart form stack name mode mt .file body abspath) = abspath :=
+  absPathOf_mkPart form stack name mode mt .file body abspath ha
+
+/-- `mtime-nsecs` is read with the error of `strconv.ParseInt` ignored: where the parse succeeds the value
+is the number, and an out-of-range value is clamped to the int64 bounds (then normalised by `time.Unix`). -/
+theorem c39_nsecs_value :
+    (∀ s i, parseDec64 s = some i → parseDecVal s = i) ∧
+    parseDecVal "9223372036854775808".toList = 9223372036854775807 ∧
+    parseDecVal "-9223372036854775809".toList = -9223372036854775808 ∧
+    parseDecVal "abc".toList = 0 :=
+  ⟨fun _ _ h => parseDecVal_of_parse h, by decide, by decide, by decide⟩
 
 /-- The reader before the `fix:` commit: a file with a mode and no modification time comes back with
 the Unix epoch as its time, and so does every symbolic link without a time. -/
 theorem c39_unfixed_counterexample :
-    parse false (serialize true (.cons "a".toList (.file ⟨420, none⟩ "x".toList) .nil))
-      = .cons "a".toList (.file ⟨420, some (0, 0)⟩ "x".toList) .nil ∧
+    parse false (serialize true (.cons "a".toList (.file ⟨420, none⟩ [] "x".toList) .nil))
+      = .cons "a".toList (.file ⟨420, some (0, 0)⟩ [] "x".toList) .nil ∧
     parse false (serialize true (.cons "l".toList (.link none "t".toList) .nil))
       = .cons "l".toList (.link (some (0, 0)) "t".toList) .nil := by
   constructor <;> rfl
@@ -64,21 +79,21 @@ theorem c39_unfixed_counterexample :
 /-- The guard on names is necessary: the writer joins entry names with `path.Join`, so an entry called
 `a/b` comes back as a directory `a` containing `b`, and an entry called `..` climbs out of its directory. -/
 theorem c39_guard_necessary :
-    parse true (serialize true (.cons "a/b".toList (.file ⟨0, none⟩ "x".toList) .nil))
-      = .cons "a".toList (.dir ⟨0, none⟩ (.cons "b".toList (.file ⟨0, none⟩ "x".toList) .nil)) .nil ∧
+    parse true (serialize true (.cons "a/b".toList (.file ⟨0, none⟩ [] "x".toList) .nil))
+      = .cons "a".toList (.dir ⟨0, none⟩ (.cons "b".toList (.file ⟨0, none⟩ [] "x".toList) .nil)) .nil ∧
     parse true (serialize true
-        (.cons "d".toList (.dir ⟨0, none⟩ (.cons "..".toList (.file ⟨0, none⟩ "x".toList) .nil)) .nil))
-      = .cons "d".toList (.dir ⟨0, none⟩ .nil) (.cons [] (.file ⟨0, none⟩ "x".toList) .nil) := by
+        (.cons "d".toList (.dir ⟨0, none⟩ (.cons "..".toList (.file ⟨0, none⟩ [] "x".toList) .nil)) .nil))
+      = .cons "d".toList (.dir ⟨0, none⟩ .nil) (.cons [] (.file ⟨0, none⟩ [] "x".toList) .nil) := by
   constructor <;> rfl
 
 /-! Non-vacuity: a tree with every kind of entry, nested directories, names with reserved characters,
 set and unset modes and times satisfies the hypotheses. -/
 def sample : Kids :=
-  .cons "a b%+;=\"".toList (.file ⟨420, some (1700000000, 5)⟩ "hello".toList)
+  .cons "a b%+;=\"".toList (.file ⟨420, some (1700000000, 5)⟩ "/abs/a b%".toList "hello".toList)
   (.cons "d".toList (.dir ⟨2147484141, none⟩
       (.cons "l".toList (.link (some (-5, 0)) "../t".toList)
       (.cons "e".toList (.dir ⟨0, some (0, 0)⟩ .nil) .nil)))
-  (.cons "z".toList (.file ⟨0, none⟩ []) .nil))
+  (.cons "z".toList (.file ⟨0, none⟩ [] []) .nil))
 
 example : NamesOK sample := by
   simp only [sample, NamesOK, NamesOKNode, NameOK, IsBytes]
